@@ -419,3 +419,58 @@ def b_stats(ctx):
                                       "tag": f"{kind}{k}:{g}"})
                     else:
                         ctx.note("stats_" + next(iter(val)))
+
+
+def fixed_templates():
+    """hand-written abstract programs (ground truth for their rendered text): shapes the random generator
+    rarely produces -- simultaneous assignments with draws / constants and cross-reads, long decimal literals"""
+    ONE = ()
+
+    def V(v, e=1):
+        return ((v, e),)
+
+    def asg(v, poly):
+        return ("assign", v, [(F(1), poly)], ("true",), v)
+    T = []
+    # x, y = DiscreteUniform(1,3), x   (y reads the OLD x)
+    T.append(("simul_draw_read", {
+        "vars": ["s", "x", "y"], "s0": {}, "guard": ("true",),
+        "init": [asg("x", [(F(2), ONE)]), asg("y", []), asg("s", [])],
+        "body": [("simul", [("draw", "x", ("duniform", 1, 3), ("true",), "x"), asg("y", [(F(1), V("x"))])]),
+                 asg("s", [(F(1), V("s")), (F(1), (("x", 1), ("y", 1)))])]}, ["x*y", "s", "y", "y**2"]))
+    # cnt, last = 0, cnt
+    T.append(("simul_const_read", {
+        "vars": ["cnt", "last", "total"], "s0": {}, "guard": ("true",),
+        "init": [asg("cnt", []), asg("last", []), asg("total", [])],
+        "body": [("assign", "cnt", [(F(1, 2), [(F(1), V("cnt")), (F(1), ONE)]), (F(1, 2), [(F(1), V("cnt"))])], ("true",), "cnt"),
+                 ("draw", "f", ("bernoulli", F(1, 4)), ("true",), "f"),
+                 ("if", [("atom", [(F(1), V("f"))], "==", [(F(1), ONE)])],
+                  [[("simul", [asg("cnt", []), asg("last", [(F(1), V("cnt"))])]),
+                    asg("total", [(F(1), V("total")), (F(1), V("last"))])]], [])]}, ["cnt", "last", "total", "cnt*last"]))
+    T[-1][1]["vars"].append("f")
+    T[-1][1]["init"].append(asg("f", []))
+    # a, b, c = b + u, 1, a + 2*b
+    T.append(("simul_three", {
+        "vars": ["a", "b", "c", "u"], "s0": {}, "guard": ("true",),
+        "init": [asg("a", []), asg("b", [(F(2), ONE)]), asg("c", []), asg("u", [])],
+        "body": [("draw", "u", ("bernoulli", F(1, 2)), ("true",), "u"),
+                 ("simul", [asg("a", [(F(1), V("b")), (F(1), V("u"))]), asg("b", [(F(1), ONE)]),
+                            asg("c", [(F(1), V("a")), (F(2), V("b"))])])]}, ["a", "c", "a*c", "c**2"]))
+    # long decimal literals close to simple fractions
+    T.append(("long_decimals", {
+        "vars": ["x", "y"], "s0": {}, "guard": ("true",),
+        "init": [asg("x", [(F(1), ONE)]), asg("y", [])],
+        "body": [("assign", "x", [(F(142857142, 10 ** 9), [(F(33333333, 10 ** 8), V("x")), (F(1), ONE)]),
+                                  (1 - F(142857142, 10 ** 9), [(F(1), V("x"))])], ("true",), "x"),
+                 asg("y", [(F(1), V("y")), (F(1666666667, 10 ** 10), V("x"))])]}, ["x", "y", "x**2"]))
+    # swap through a simultaneous assignment with a probabilistic alternative
+    T.append(("simul_swap_choice", {
+        "vars": ["x", "y"], "s0": {}, "guard": ("true",),
+        "init": [asg("x", [(F(1), ONE)]), asg("y", [(F(3), ONE)])],
+        "body": [("simul", [("assign", "x", [(F(1, 2), [(F(1), V("y"))]), (F(1, 2), [(F(1), V("x"))])], ("true",), "x"),
+                            asg("y", [(F(1), V("x")), (F(1), V("y"))])])]}, ["x", "y", "x*y"]))
+    items = []
+    for name, P, goals in T:
+        items.append({"id": "tmpl-" + name, "text": gen.render(P), "T": P, "params": [], "types": None, "points": [{}],
+                      "goals": goals, "origin": "fixed template " + name})
+    return items
